@@ -3,10 +3,10 @@ from symx.api import And, Iff, Implies, Instance, Ite, Not, Or
 
 META = {
     "bounds": {
-        "screens": "2x1, 3x1, 2x2, 3x2 (quick) plus 1x1, 1x2 (thorough; 4x2 and 3x3 did not finish within the budget); every cell an arbitrary byte 0..126 (controls are shown as '?'), "
+        "screens": "2x1, 3x1, 2x2, 3x2 (quick) plus 1x1, 1x2 (thorough; larger screens did not finish within the budget); every cell an arbitrary byte 0..126 (controls are shown as '?'), "
                    "attribute runs over {None, 'a' (palette entry), 'undef' (not in the palette), an AttrSpec with standout} with solver-chosen boundaries, "
                    "charset runs None/'0' (non-utf-8 output), cursor anywhere or absent",
-        "history": "two frames (three in thorough for the byte-content instances), optionally clear() between them, optionally a resize to another of the sizes; attribute and charset runs in both frames only on the 2-cell screens (larger ones did not finish within the budget)",
+        "history": "two frames (three in thorough for the byte-content instances on the 1- and 2-cell screens), optionally clear() between them, optionally a resize to another of the sizes; attribute and charset runs in both frames only on the 2-cell screens (larger ones did not finish within the budget)",
         "configuration": "back_color_erase on/off, output encoding ascii / utf-8 (ASCII content)",
     },
     "outside": ["HTML screenshot back-end", "double-width characters in the frames", "partial-screen mode (_rows_used)", "fbterm, Windows branch", "colour depth (C17 covers the SGR content)"],
@@ -19,24 +19,28 @@ SIZES_Q = [(2, 1), (3, 1), (2, 2), (3, 2)]
 
 def instances(tier):
     q = tier == "quick"
+    # (the thorough tier adds the 1x1 and 1x2 screens and a third frame for the byte-content instances; wider sets - attribute and
+    #  charset runs on 4-6 cell screens, both frames carrying runs - did not finish within a 22-minute budget)
     sizes = SIZES_Q if q else SIZES_Q + [(1, 1), (1, 2)]
     out = []
     for (c, r) in sizes:
         for mode in ("bytes", "attrs", "cs", "cursor"):
-            if mode in ("attrs", "cs") and c * r > (3 if q else 4):
+            if mode in ("attrs", "cs") and c * r > 3:
                 continue  # (larger attribute / charset instances take more than ten minutes each)
-            if mode == "cursor" and c * r > (4 if q else 6):
+            if mode == "cursor" and c * r > 4:
                 continue
 
             for bce in (True, False):
                 for enc in ("ascii", "utf-8"):
-                    if enc == "utf-8" and (mode == "cs" or (q and not bce)):
+                    if enc == "utf-8" and (mode == "cs" or not bce):
                         continue
                     for hist in ("2", "2clear") + (() if q else ("3",)):
-                        if hist in ("2clear", "3") and mode != "bytes":
+                        if hist == "2clear" and mode != "bytes":
+                            continue
+                        if hist == "3" and (mode != "bytes" or c * r > 2):
                             continue
                         out.append(Instance("draw.%dx%d.%s.%s.%s.%s" % (c, r, mode, "bce" if bce else "nobce", enc, hist), "h_draw",
-                                            {"cols": c, "rows": r, "bce": bce, "enc": enc, "hist": hist, "mode": mode, "both": (mode == "cs" and c * r <= 2) or (not q and c * r <= 2)}, timeout=600 if q else 1500))
+                                            {"cols": c, "rows": r, "bce": bce, "enc": enc, "hist": hist, "mode": mode, "both": (mode == "cs" and c * r <= 2)}, timeout=600))
     for (c1, r1), (c2, r2) in (((3, 2), (2, 2)), ((2, 1), (3, 2)), ((2, 2), (2, 1))):
         out.append(Instance("resize.%dx%d.to.%dx%d" % (c1, r1, c2, r2), "h_draw", {"cols": c1, "rows": r1, "bce": True, "enc": "ascii", "hist": "resize", "mode": "bytes", "cols2": c2, "rows2": r2}, timeout=600))
     return out
